@@ -372,7 +372,7 @@ inline Run run_form_isolated(const std::string& form, const Input& in, bool none
   if (pid == 0) {
     close(fd[0]);
     for (int sg : {SIGSEGV, SIGABRT, SIGFPE, SIGBUS, SIGILL, SIGALRM}) std::signal(sg, SIG_DFL);
-    alarm(20);   // a run takes milliseconds; an engine that does not terminate is killed (reported as signal 14)
+    alarm(5);   // a run takes milliseconds; an engine that does not terminate is killed (reported as signal 14)
     Run r = run_form(form, in, none_as_max);
     std::string js = bj::serialize(jrun(r));
     std::size_t off = 0;
